@@ -19,6 +19,11 @@ type pool struct {
 	activeCount int
 	nextIdx     int
 
+	// cooldowns counts, per peer, the entries of the cooldown queue that have not expired yet. A peer
+	// can have several (cooldown -> remove -> add -> cooldown): only the expiry of the last one ends
+	// the cooldown.
+	cooldowns map[peer.ID]int
+
 	hasPeer   bool
 	hasPeerCh chan struct{}
 
@@ -38,6 +43,7 @@ func newPool(peerCooldownTime time.Duration) *pool {
 	p := &pool{
 		peersList:        make([]peer.ID, 0),
 		statuses:         make(map[peer.ID]status),
+		cooldowns:        make(map[peer.ID]int),
 		hasPeerCh:        make(chan struct{}),
 		cleanupThreshold: defaultCleanupThreshold,
 	}
@@ -184,6 +190,7 @@ func (p *pool) putOnCooldown(peerID peer.ID) {
 
 	if status, ok := p.statuses[peerID]; ok && status == active {
 		p.cooldown.push(peerID)
+		p.cooldowns[peerID]++
 
 		p.statuses[peerID] = cooldown
 		p.activeCount--
@@ -194,6 +201,14 @@ func (p *pool) putOnCooldown(peerID peer.ID) {
 func (p *pool) afterCooldown(peerID peer.ID) {
 	p.m.Lock()
 	defer p.m.Unlock()
+
+	// an entry from an earlier cooldown of the same peer expired: the peer has been put on cooldown
+	// again since, it stays there until its last entry expires
+	if p.cooldowns[peerID] > 1 {
+		p.cooldowns[peerID]--
+		return
+	}
+	delete(p.cooldowns, peerID)
 
 	// item could have been already removed by the time afterCooldown is called
 	if status, ok := p.statuses[peerID]; !ok || status != cooldown {
